@@ -312,6 +312,41 @@ try:
 except Exception as ex:
     problems.append("translate_program: %s" % ex)
     lines += ["def straightArmSrc (i : Insn) : Option (B Unit) := none", "def straightOpcodes : List Nat := []", "def otherOpcodes : List Nat := []", "def armsSrcOk : Bool := false", ""]
+# ---- build_function_prelude: from the stack slot to the jump into the block of instruction 0
+try:
+    m = re.search(r"fn build_function_prelude\(", txt)
+    b0 = txt.index("{", balanced(txt, m.end() - 1, "(", ")")); body = txt[b0 + 1:balanced(txt, b0) - 1]
+    k = body.index("let ss = bcx.create_sized_stack_slot(")
+    decl = " ".join(body[:k].split())
+    decl_ok = bool(re.fullmatch(r"for var in self\.registers\.iter_mut\(\) \{ \*var = bcx\.declare_var\(I64\); \} self\.mem_start = bcx\.declare_var\(I64\); self\.mem_end = bcx\.declare_var\(I64\); "
+                                r"self\.mbuf_start = bcx\.declare_var\(I64\); self\.mbuf_end = bcx\.declare_var\(I64\); self\.stack_start = bcx\.declare_var\(I64\); self\.stack_end = bcx\.declare_var\(I64\); "
+                                r"for \(k, _\) in self\.helpers\.iter\(\) \{.*\}", decl))
+    STACK = C["STACK_SIZE"]
+    env = {}; pl = []
+    for st_ in split_top(body[k:], ";"):
+        st_ = " ".join(st_.split())
+        if st_ == "": continue
+        if st_ == "let ss = bcx.create_sized_stack_slot(StackSlotData::new( StackSlotKind::ExplicitSlot, STACK_SIZE as u32, 0, ))": continue
+        if st_ == "let addr_ty = self.isa.pointer_type()": continue
+        q = re.fullmatch(r"let ([a-z_]+) = bcx\.ins\(\)\.stack_addr\(addr_ty, ss, (STACK_SIZE as i32|0)\)", st_)
+        if q: env[q.group(1)] = camel(q.group(1)); pl.append("  let %s ← ins (.stackAddr %d)" % (camel(q.group(1)), STACK if q.group(2) != "0" else 0)); continue
+        q = re.fullmatch(r"bcx\.def_var\(self\.registers\[(\d+)\], ([a-z_]+)\)", st_)
+        if q: pl.append("  defVar %s %s" % (q.group(1), val(q.group(2), env))); continue
+        q = re.fullmatch(r"bcx\.def_var\(self\.([a-z_]+), ([a-z_]+)\)", st_)
+        if q and q.group(1) in VARS: pl.append("  defVar %s %s" % (VARS[q.group(1)], val(q.group(2), env))); continue
+        q = re.fullmatch(r"let ([a-z_]+) = bcx\.block_params\(entry\)\[(\d)\]", st_)
+        if q: env[q.group(1)] = camel(q.group(1)); pl.append("  let %s := Arg.param %s" % (camel(q.group(1)), q.group(2))); continue
+        if st_ == "let program_entry = *self .insn_blocks .entry(0) .or_insert_with(|| bcx.create_block())": continue
+        if st_ == "bcx.ins().jump(program_entry, &[])": pl.append("  emit (.jump 0)"); continue
+        if st_ in ("self.filled_blocks.insert(bcx.current_block().unwrap())", "Ok(())"): continue
+        q = re.fullmatch(r"let ([a-z_]+) = (bcx\.ins\(\)\..*)", st_)
+        if q:
+            act, v = rhs(q.group(2), env); env[q.group(1)] = camel(q.group(1)); pl.append("  let %s ← %s" % (camel(q.group(1)), act)); continue
+        raise SyntaxError("prelude statement `%s`" % st_[:80])
+    lines += ["/-- `build_function_prelude` from the stack slot on: the stack addresses, the ends of the two memory areas, R1 and R2, the jump to the block of instruction 0 -/",
+              "def preludeSrcB : B Unit := do"] + pl + ["def preludeSrcOk : Bool := %s" % ("true" if decl_ok else "false"), ""]
+except Exception as ex:
+    problems.append("build_function_prelude: %s" % ex); lines += ["def preludeSrcB : B Unit := throw .err", "def preludeSrcOk : Bool := false", ""]
 for p_ in problems: lines.append("/- not translated: %s -/" % p_.replace("-/", "- /"))
 lines += ["end Rbpf.Generated.Clif", ""]
 new = "\n".join(lines)
